@@ -10,9 +10,10 @@ import (
 )
 
 func init() {
+	extraLemmaFuncs = append(extraLemmaFuncs, "capnp.(*Client).IsSame")
 	Register(&Spec{
 		ID:          "C17",
-		Explanation: "Decides necessary conditions of Equal being the documented structural equality: (R1) a byte extent of a list computed as element size * length is used only where the list is known not to be a bit list (bit lists have element size zero and need bitListSize or bitwise comparison); (R2) coverage of the cases: structs compare the common data prefix and require the longer tail to be zero on either side, compare the common pointers recursively and require the extra pointers of either side to be null; lists require equal lengths, compare bit lists bit by bit under both bit-list flags, use the bytewise fast path only for non-bit, pointer-free lists of equal element size, and otherwise compare elements as structs; interfaces end in Client.IsSame; (R3) the error of every recursive call is propagated. (R2z) isZeroFilled answers true only after a byte-granular scan of the whole slice; (R2i) a result of Equal depends on two capability indexes being equal only where the two pointers are known to be in the same message. Does NOT decide iff-correctness, reflexivity or symmetry as value-level facts.",
+		Explanation: "Decides necessary conditions of Equal being the documented structural equality: (R1) a byte extent of a list computed as element size * length is used only where the list is known not to be a bit list (bit lists have element size zero and need bitListSize or bitwise comparison); (R2) coverage of the cases: structs compare the common data prefix and require the longer tail to be zero on either side, compare the common pointers recursively and require the extra pointers of either side to be null; lists require equal lengths, compare bit lists bit by bit under both bit-list flags, use the bytewise fast path only for non-bit, pointer-free lists of equal element size, and otherwise compare elements as structs; interfaces end in Client.IsSame; (R3) the error of every recursive call is propagated. (R2z) isZeroFilled answers true only after a byte-granular scan of the whole slice; (R2i) a result of Equal depends on two capability indexes being equal only where the two pointers are known to be in the same message. (R2s) Client.IsSame has its confirmed normal form (identity of the resolved hooks only). Does NOT decide iff-correctness, reflexivity or symmetry as value-level facts.",
 		Run:         runC17,
 	})
 }
@@ -38,6 +39,9 @@ var equalSpecs = []anchorSpec{
 }
 
 func runC17(ctx *Ctx) {
+	if ctx.Primary {
+		ruleKernelLemmas(ctx, "C17-R2s", []string{"capnp.(*Client).IsSame"})
+	}
 	ruleIfaceIndexSameMessage(ctx, "C17-R2i")
 	ruleFullScan(ctx, "C17-R2z", "capnp.isZeroFilled")
 	ruleBitListExtent(ctx, "C17-R1")
@@ -139,15 +143,34 @@ func ruleRecursiveErrors(ctx *Ctx, rule, fn string) {
 	}
 }
 
-// ruleEqualEntry: null and type dispatch at the top of Equal.
+// ruleEqualEntry: null and type dispatch at the top of Equal. Each clause is a
+// constant result returned under a set of conditions; a return satisfies the
+// clause when its dominating conditions (or, for a return reached through
+// "a || b", the conditions of one entering edge) include them. Conditions
+// written with the source names of locals are compared in the name-free form.
 func ruleEqualEntry(ctx *Ctx, rule string) {
 	q := ssaq.For(ctx.Prog)
 	r := ctx.Rep
-	f := q.Func("capnp.Equal")
+	const fn = "capnp.Equal"
+	f := q.Func(fn)
 	if f == nil {
 		return
 	}
-	lines := map[string]bool{}
+	type retInfo struct {
+		val            string
+		named, resolved map[string]bool
+	}
+	var rets []retInfo
+	add := func(val string, named, resolved []string) {
+		ri := retInfo{val: val, named: map[string]bool{}, resolved: map[string]bool{}}
+		for _, a := range named {
+			ri.named[a] = true
+		}
+		for _, a := range resolved {
+			ri.resolved[a] = true
+		}
+		rets = append(rets, ri)
+	}
 	for _, b := range f.Blocks {
 		for _, in := range b.Instrs {
 			ret, ok := in.(*ssa.Return)
@@ -158,27 +181,51 @@ func ruleEqualEntry(ctx *Ctx, rule string) {
 			if !isC || c.Value == nil {
 				continue
 			}
-			lines[c.Value.String()+" <= "+strings.Join(ssaq.DomAtoms(ret), " && ")] = true
-			// a return reached through `a || b`: record the edge conditions of its predecessors
+			dn, dr := ssaq.DomAtoms(ret), ssaq.DomAtomsR(ret)
+			add(c.Value.String(), dn, dr)
+			// a return reached through `a || b`: the conditions of each entering edge
 			for _, p := range b.Preds {
 				if ifi, ok := p.Instrs[len(p.Instrs)-1].(*ssa.If); ok {
 					for k, s := range p.Succs {
 						if s == b {
-							lines[c.Value.String()+" <= "+ssaq.RenderCond(f, ifi.Cond, k == 0)] = true
+							add(c.Value.String(),
+								append(append([]string{}, ssaq.DomAtoms(ifi)...), strings.Split(ssaq.RenderCond(f, ifi.Cond, k == 0), " && ")...),
+								append(append([]string{}, ssaq.DomAtomsR(ifi)...), strings.Split(ssaq.RenderCondR(f, ifi.Cond, k == 0), " && ")...))
 						}
 					}
 				}
 			}
 		}
 	}
-	want := map[string]string{
-		"null equals null":                 "true <= !IsValid(p0) && !IsValid(p1)",
-		"different pointer kinds differ":   "false <= IsValid(p0) && IsValid(p1) && ptrType(p0.flags) != ptrType(p1.flags)",
-		"lists of different length differ": "false <= 0:int != ptrType(p0.flags) && 1:int == ptrType(p0.flags) && IsValid(p0) && IsValid(p1) && Len(l1) != Len(l2) && ptrType(p0.flags) == ptrType(p1.flags)",
+	type clause struct {
+		what, val string
+		atoms     []string
 	}
-	for what, w := range want {
-		key := "capnp.Equal | " + what
-		if lines[w] {
+	for _, cl := range []clause{
+		{"null equals null", "true", []string{"!IsValid(p0)", "!IsValid(p1)"}},
+		{"different pointer kinds differ", "false", []string{"IsValid(p0)", "IsValid(p1)", "ptrType(p0.flags) != ptrType(p1.flags)"}},
+		{"lists of different length differ", "false", []string{"1:int == ptrType(p0.flags)", "IsValid(p0)", "IsValid(p1)", "Len(l1) != Len(l2)", "ptrType(p0.flags) == ptrType(p1.flags)"}},
+	} {
+		key := fn + " | " + cl.what
+		found := false
+		for _, ri := range rets {
+			if ri.val != cl.val {
+				continue
+			}
+			all := true
+			for _, a := range cl.atoms {
+				if wx, full := expandWant(fn, a); full {
+					all = all && ri.resolved[wx]
+				} else {
+					all = all && ri.named[a]
+				}
+			}
+			if all {
+				found = true
+			}
+		}
+		w := cl.val + " <= " + strings.Join(cl.atoms, " && ")
+		if found {
 			r.Ok(rule, key, q.Pos(f.Pos()), w)
 		} else {
 			r.Violation(rule, key, q.Pos(f.Pos()), "no return of the form "+w)
@@ -186,8 +233,8 @@ func ruleEqualEntry(ctx *Ctx, rule string) {
 	}
 	// null vs non-null
 	nn := false
-	for l := range lines {
-		if strings.HasPrefix(l, "false <= ") && (strings.Contains(l, "!IsValid(p0)") || strings.Contains(l, "!IsValid(p1)")) {
+	for _, ri := range rets {
+		if ri.val == "false" && (ri.named["!IsValid(p0)"] || ri.named["!IsValid(p1)"]) {
 			nn = true
 		}
 	}
